@@ -116,7 +116,7 @@ Proof.
     - (* HD3 *) unfold memN. destruct (existsb (N.eqb p) ps) eqn:Ex; [|reflexivity].
       apply existsb_exists in Ex as [q [Hq1 Hq2]]. apply N.eqb_eq in Hq2. subst q.
       match goal with H : forallb _ ps = true |- _ => pose proof (forallb_In _ _ H p Hq1) as Ho end.
-      cbn beta in Ho. apply own_true in Ho as [_ Ho]. congruence. }
+      cbn beta in Ho. apply andb_prop in Ho as [Ho _]. apply own_true in Ho as [_ Ho]. congruence. }
   set (c' := setp c p pg0).
   assert (Gp : forall q, getp c' q = if q =? p then pg0 else getp c q) by (intros; apply getp_setp).
   assert (EW : forall P, mW c' P = mW c P).
@@ -176,13 +176,3 @@ Proof.
       * destruct S9 as [H1 H2]. split; [|exact H2]. intros q. rewrite Gp. destruct (q =? p); [discriminate|apply H1].
 Qed.
 
-(* what is below a page-free frame *)
-Lemma pf_rest p rest : stk_ok (PF p :: rest) = true -> forall f, In f rest -> forall q, fr_touch_pg q f = false.
-Proof.
-  intros H. pose proof (stk_ok_tail _ _ H) as H2. cbn [stk_ok] in H. apply andb_prop in H as [H1 _].
-  destruct rest as [|g rest']; [intros f []|]. destruct g; try discriminate H1.
-  - (* DP3 *) destruct (dp_rest (DP3 h pend af) h rest' eq_refl H2) as [->|[(r' & -> & [->|[(fo & ->)| ->]])|(bk & ->)]];
-      intros f Hin q; cbn [In] in Hin; repeat destruct Hin as [Hin|Hin]; subst; try contradiction; reflexivity.
-  - (* HC3 *) destruct rest'; [|cbn in H2; discriminate H2].
-    intros f [<-|[]] q. reflexivity.
-Qed.
